@@ -97,8 +97,20 @@ def check_ast(ast, src, case):
         fail("repr", case, src, "eval(repr(ast)) differs at %s" % (first_difference(d0, dump(back)),), "repr-differs")
     try:
         g0 = c_generator.CGenerator().visit(ast)
+        g0r = c_generator.CGenerator(reduce_parentheses=True).visit(ast)
     except Exception:  # noqa: BLE001 - generator defects are C07's business
-        g0 = None
+        g0 = g0r = None
+    # "the rebuilt trees generate exactly the same C text": the tree rebuilt from
+    # repr() has no shared sub-objects (the parser puts one specifier node under
+    # every declarator of a declaration) - the text must not depend on that
+    if back is not None and g0 is not None:
+        try:
+            gb = c_generator.CGenerator().visit(back)
+            gbr = c_generator.CGenerator(reduce_parentheses=True).visit(back)
+        except Exception as e:  # noqa: BLE001
+            fail("repr", case, src, "CGenerator raised %s on eval(repr(ast)) but not on the original" % type(e).__name__, "repr-gen-exc")
+        if gb != g0 or gbr != g0r:
+            fail("repr", case, src, "eval(repr(ast)) is structurally identical but generates different C text", "repr-gen-differs")
     copies = []
     for p in range(2, pickle.HIGHEST_PROTOCOL + 1):
         try:
@@ -121,7 +133,7 @@ def check_ast(ast, src, case):
         dc = dump(cp, True)
         if dc != d0c:
             fail(kind, case, src, "%s copy differs at %s" % (name, first_difference(d0c, dc)), kind + "-differs")
-        if g0 is not None and c_generator.CGenerator().visit(cp) != g0:
+        if g0 is not None and (c_generator.CGenerator().visit(cp) != g0 or c_generator.CGenerator(reduce_parentheses=True).visit(cp) != g0r):
             fail(kind, case, src, "%s copy generates different C text" % name, kind + "-gen-differs")
         s = set()
         ids(cp, s)
